@@ -45,7 +45,7 @@ BOUNDED = {
  "C07": "bounded: two real DataServers + real Listener/send_data over the adversarial network, adversary-scheduled thread-pool jobs",
  "C08": "bounded: real shm Manager + real Disk page code over a fake /dev/shm; exhaustive operation sequences to depth 4/5 + random walks; ground truth kept by the harness",
  "C09": "bounded: same harness as C08 with byte-identity, reader-protection, delayed-purge and eviction-liveness monitors; exhaustive run of the real victim selection (lottery) on all candidate lists up to the bound",
- "C10": "bounded: real graph2job + execute_sequence + runner.run on enumerated graphs with recorder callables (argument positions, output binding, count mismatch)",
+ "C10": "bounded: real graph2job + execute_sequence + runner.run on enumerated graphs and fluent programs (incl. batched reductions built from one payload) with recorder callables (argument positions, output binding, count mismatch)",
  "C11": "bounded: real graph transforms on all small DAGs with adversarial names, compared through a denotation function",
  "C12": "bounded: real serialise/deserialise/JSON/Cascade file on all small DAGs and fluent programs, compared node by node",
  "C13": "bounded: fluent programs to depth 3 evaluated by a reference interpreter and compared with NumPy, a sample of them evaluated a second time after every other program over the same source was built",
